@@ -231,7 +231,8 @@ def run(rep, tier):
            "Store::begin_transaction (the sequence allocator) is called from %s" % sorted(bcallers), bt.file + ":%d" % bt.line)
     # ------------------------------------------------------------------ R17.6 identity conflicts are looked for before the first write
     rep.rule("R17.6", "every uniqueness constraint the element collections enforce on write (#[unique] columns of the Element row types) is looked for by a "
-                      "pre-write check over the staged rows: otherwise the index refuses the row in the middle of the write loop, after earlier rows are durable", floor=1)
+                      "pre-write check over the staged rows: otherwise the index refuses the row in the middle of the write loop, after earlier rows are durable; "
+                      "each pre-write check visits every staged row", floor=4)
     el = prog.adts.get(nx.N + "::store::Element")
     if el is None:
         raise CheckerFault("anchor missing: store::Element")
@@ -276,6 +277,29 @@ def run(rep, tier):
                "no function reachable from Transaction::check_before_write reads %s.%s of the staged rows: two staged rows with the same value (or one equal to a "
                "committed row) are refused by the unique index only in the middle of the write loop, leaving the rows written before them" % (rt.rsplit("::", 1)[1], fname),
                cbw.file + ":%d" % cbw.line)
+    # the pre-write checks look at *every* staged row: their loop over self.staged is left only when it is exhausted or through an
+    # error return (a `break` on the first row of another kind skips every row after it - the staged map is ordered by kind tag)
+    nloops = 0
+    for f in checkers:
+        if "staged" not in _all_fields(f) or f.kind == "Closure" and not f.coroutine:
+            continue
+        okret = {b for b in f.live_blocks() for st in f.stmts(b) if st[0] == "A" and st[1]["l"] == 0 and not st[1].get("p")
+                 and st[2]["k"] == "agg" and st[2]["a"].get("def") == "core::result::Result" and st[2]["a"].get("v") == "Ok"}
+        for nx_ in f.calls_named(r"Iterator>?::next$"):
+            if "staged" not in f.slice_fields(nx_.args[0], through=lambda ev: True):
+                continue
+            some_t = [m["Some"] for (sb, adt, m) in f.outcome_edges(nx_.dest.l) if adt == "core::option::Option" and "Some" in m]
+            if not some_t:
+                continue
+            nloops += 1
+            h = nx_.block
+            body = {b for b in f.reachable_from(some_t, avoid={h}) if b != h and f.can_reach([b], [h])}
+            early = sorted(b for b in body if f.reachable_from([b], avoid={h}) & okret)
+            rep.ob("R17.6", "visits-every-staged-row|%s" % prog.outer_fn(f).path.rsplit("::", 1)[1], not early,
+                   "a pre-write check leaves its loop over the staged rows early and still answers Ok: the rows after that point are never checked",
+                   "%s:%s" % (f.file, f.term(early[0]).get("ln", f.line)) if early else f.file + ":%d" % f.line)
+    if nloops < 3:
+        rep.fault("R17.6: only %d loops over the staged rows found in the pre-write checks" % nloops)
     return rep.finish(EXPLAIN)
 
 
